@@ -209,6 +209,18 @@ package bytecode
 //@ specfunc genLen(Iface) Int
 //@ specfunc genCode(Iface, Int, Int) Iface
 //@ axiom genLen_nonneg: forall n Iface :: { genLen(n) } genLen(n) >= 0
+// leaves of the generator (C01): one instruction that carries the node's own operands and flags
+//@ func generateString [C01]
+//@   requires l != nil
+//@   ensures leaf: result.1 == nil && len(result.0) == 1 && result.0[0] is MatchLiteral && (result.0[0] as MatchLiteral).ToFind == l.Value && (result.0[0] as MatchLiteral).Not == l.Not && (result.0[0] as MatchLiteral).Caseless == l.Caseless
+//@ func generateCharacterClass [C01]
+//@   requires l != nil
+//@   ensures leaf: result.1 == nil && len(result.0) == 1 && result.0[0] is MatchCharClass && (result.0[0] as MatchCharClass).Class == l.ClassType && (result.0[0] as MatchCharClass).Not == l.Not
+//@ func generateRange [C01]
+//@   requires l != nil
+//@   presumes ends: l.From != nil && l.To != nil
+//@   ensures leaf: result.1 == nil && len(result.0) == 1 && result.0[0] is MatchRange && (result.0[0] as MatchRange).From == l.From.Value && (result.0[0] as MatchRange).To == l.To.Value && !(result.0[0] as MatchRange).Not
+
 //@ func generateSearchInstruction [C13 C01]
 //@   trusted
 //@   effects onlywrites map<string>int [C13]
